@@ -274,12 +274,23 @@ class MovingWindow(BackgroundService):
                     f"Timestamp {key} is out of range [{self._buffer.oldest_timestamp}, "
                     f"{self._buffer.newest_timestamp}]"
                 )
+            if self._buffer.is_missing(self._buffer.normalize_timestamp(key)):
+                return np.nan
             return self._buffer[self._buffer.to_internal_index(key)]
 
         if isinstance(key, int):
             _logger.debug("Returning value at index %s ", key)
             timestamp = self._buffer.get_timestamp(key)
             assert timestamp is not None
+            assert self._buffer.oldest_timestamp is not None
+            assert self._buffer.newest_timestamp is not None
+            if (
+                timestamp < self._buffer.oldest_timestamp
+                or timestamp > self._buffer.newest_timestamp
+            ):
+                raise IndexError(f"Index {key} is out of range")
+            if self._buffer.is_missing(timestamp):
+                return np.nan
             return self._buffer[self._buffer.to_internal_index(timestamp)]
 
         raise TypeError("Key has to be either a timestamp or an integer.")
